@@ -29,6 +29,12 @@ type Env struct {
 	useCells bool
 	cf       *ContractFile
 	where    string
+	// state at entry of the function under verification (nil map + epoch 0) or,
+	// at a call site, the pre-call state; used by entry(expr)
+	entryHeap  map[string]Term
+	entryEpoch int
+	entryNow   Term
+	hasEntry   bool
 }
 
 type specError struct{ msg string }
@@ -709,13 +715,20 @@ func (e *Env) call(c *ast.CallExpr) Value {
 		a, b := e.eval(args[0]), e.eval(args[1])
 		return Value{T: Ite(Le(a.T, b.T), a.T, b.T), Typ: a.Typ}
 	case "entry":
-		id := args[0].(*ast.Ident)
-		if e.fi >= 0 {
+		if id, ok := args[0].(*ast.Ident); ok && e.fi >= 0 {
 			if v, ok := e.st.frames[e.fi].params[id.Name]; ok {
 				return v
 			}
 		}
-		e.fail("entry(%s): no such parameter", id.Name)
+		// entry(expr): expr evaluated in the state at function entry
+		n := *e
+		if e.hasEntry {
+			n.heap, n.epoch, n.now = e.entryHeap, e.entryEpoch, e.entryNow
+		} else {
+			n.heap, n.epoch, n.now = map[string]Term{}, 0, e.x.decls.Const("now@entry", "Int")
+		}
+		n.useCells = false
+		return n.eval(args[0])
 	case "boundmethod":
 		// boundmethod(recv, "Receive"): the function value recv.Receive
 		v := e.eval(args[0])
@@ -748,7 +761,20 @@ func (e *Env) call(c *ast.CallExpr) Value {
 			v := e.eval(a)
 			ts = append(ts, v.T)
 		}
-		return Value{T: App(name, gf.Ret, ts...)}
+		var gt types.Type
+		if gf.GoType != "" {
+			if te, err := parser.ParseExpr(gf.GoType); err == nil {
+				n := *e
+				if p := x.w.typesPkg(gf.Pkg); p != nil {
+					n.pkg = p
+				}
+				gt = n.lookupType(te)
+			}
+			if gt == nil {
+				e.fail("ghost func %s: unknown Go type %q", name, gf.GoType)
+			}
+		}
+		return Value{T: App(name, gf.Ret, ts...), Typ: gt}
 	}
 	if ev, ok := x.events[name]; ok {
 		var ts []Term
